@@ -1,0 +1,19 @@
+//go:build verif
+
+package jerr
+
+// VerifFileName returns the name of the file this location points into.
+func (l Location) VerifFileName() string {
+	if l.file == nil {
+		return ""
+	}
+	return l.file.Name()
+}
+
+// VerifFileLen returns the length of the located file's content.
+func (l Location) VerifFileLen() int {
+	if l.file == nil {
+		return -1
+	}
+	return len(l.file.Content())
+}
